@@ -34,6 +34,32 @@ theorem rules_structure_facts :
     PdModel.Generated.Rules.getRulesByKeyLocked = true := by decide
 
 
+/-- **the manager's mutex makes one update one atomic step**: every mutating entry point (and Initialize) takes
+    `m.Lock()` with `defer m.Unlock()` before it touches the configuration, the index or the patch machinery and
+    performs no other lock operation; tryCommitPatch, savePatch, beginPatch, loadRules, loadGroups and the patch /
+    config helpers never lock or unlock themselves – so the lock is held from the first read of the served
+    configuration until after commit (or the error return), storage writes included.  Re-extracted on every run. -/
+theorem rules_lock_facts :
+    PdModel.Generated.Rules.setRuleLockToEnd = true ∧
+    PdModel.Generated.Rules.deleteRuleLockToEnd = true ∧
+    PdModel.Generated.Rules.setRulesLockToEnd = true ∧
+    PdModel.Generated.Rules.batchLockToEnd = true ∧
+    PdModel.Generated.Rules.setRuleGroupLockToEnd = true ∧
+    PdModel.Generated.Rules.deleteRuleGroupLockToEnd = true ∧
+    PdModel.Generated.Rules.setAllGroupBundlesLockToEnd = true ∧
+    PdModel.Generated.Rules.setGroupBundleLockToEnd = true ∧
+    PdModel.Generated.Rules.deleteGroupBundleLockToEnd = true ∧
+    PdModel.Generated.Rules.initializeLockToEnd = true ∧
+    PdModel.Generated.Rules.setKeyTypeLockToEnd = true ∧
+    PdModel.Generated.Rules.tryCommitNoLockOps = true ∧
+    PdModel.Generated.Rules.savePatchNoLockOps = true ∧
+    PdModel.Generated.Rules.beginPatchNoLockOps = true ∧
+    PdModel.Generated.Rules.loadRulesNoLockOps = true ∧
+    PdModel.Generated.Rules.loadGroupsNoLockOps = true ∧
+    PdModel.Generated.Rules.patchCommitNoLockOps = true ∧
+    PdModel.Generated.Rules.patchTrimNoLockOps = true ∧
+    PdModel.Generated.Rules.configAdjustNoLockOps = true := by decide
+
 /-! ## Part A – the key-range index (rule_list.go)
 
 Hypotheses on the rule set handed to buildRuleList (both are invariants of the manager, Part B):
